@@ -695,10 +695,14 @@ class FlatActionSpace(spaces.Discrete):
         Action
             Corresponding Action object
         """
-        assert isinstance(action_idx, int), \
+        assert isinstance(action_idx, (int, np.integer)) or (
+            isinstance(action_idx, np.ndarray)
+            and action_idx.shape == ()
+            and np.issubdtype(action_idx.dtype, np.integer)
+        ), \
             ("When using flat action space, action must be an integer"
              f" or an Action object: {action_idx} is invalid")
-        return self.actions[action_idx]
+        return self.actions[int(action_idx)]
 
 
 class ParameterisedActionSpace(spaces.MultiDiscrete):
